@@ -321,6 +321,7 @@ class EAlias(Engine):
         s = str(ev.get('s', '0b1'))
         parents = []
         made = []          # list of (obj, gen_expected, gen_src)
+        viewed = []        # the bytearray entity a new memoryview looks at (captured before the pool changes)
 
         def P(*ents):
             for e in ents:
@@ -474,6 +475,7 @@ class EAlias(Engine):
                     P(f)
                     mv = memoryview(f.obj)
                     made.append(mv)
+                    viewed.append(f)
             elif route == 'to_array' and bsrc:
                 P(bsrc); made.append(array.array('B', bsrc.obj.tobytes()))
             elif route == 'to_ba' and bsrc:
@@ -515,14 +517,14 @@ class EAlias(Engine):
                 if route == 'ctor_str' or route == 'fromstring':
                     ent.literal = s
         # couplings that hold by Python's own definition
-        if route == 'to_memoryview' and added:
-            f = self._kind_ent(ev.get('src', 0), ('bytearray',))
-            if f:
-                # every view of one bytearray belongs to one coupling group (transitively)
-                group = {f.serial, added[0].serial} | set(f.coupled)
-                for e in self.pool:
-                    if e.serial in group:
-                        e.coupled = group - {e.serial}
+        if route == 'to_memoryview' and added and viewed:
+            f = viewed[0]
+            # every view of one bytearray belongs to one coupling group (transitively); f itself may just have been
+            # evicted from the pool by the new entity, its group lives on in the views
+            group = {f.serial, added[0].serial} | set(f.coupled)
+            for e in self.pool:
+                if e.serial in group:
+                    e.coupled = group - {e.serial}
         # a stream source's pos may move by read routes: not part of the value.  Nothing is exempt from the check.
         return set(), f'derive:{route}', {'st': st, 'new': [e.kind for e in added], 'exc': kernel.exc_name(v) if st == 'exc' else None}
 
